@@ -13,7 +13,7 @@ from fractions import Fraction
 from .common import Ctx, Driver, tok
 
 MANIFEST = dict(
-    text=("Lean theorems (69, all proved, axioms audited) over a code-mirror of nonwhitespace_re.findall, TreeBuilder option handling and "
+    text=("Lean theorems (all proved, axioms audited; count in evidence) over a code-mirror of nonwhitespace_re.findall, TreeBuilder option handling and "
           "_replace_cdata_list_attribute_values, HTMLAttributeDict/XMLAttributeDict.__setitem__, the attribute part of Tag.__init__, "
           "new_tag, copy_self, handle_starttag's duplicate handling, Tag.get/get_attribute_list/has_attr/__delitem__, and the attribute "
           "part of _format_tag with Formatter.attributes and quoted_attribute_value. Splitting: split_tokens + every_string_decomposes "
@@ -116,6 +116,8 @@ def mk(desc):
         _, lc = _classes()
         cls = list if desc[1] == 0 else lc[desc[1]]
         return cls(desc[2])
+    if t == "t":
+        return tuple(desc[1])
     if t == "o":
         return OTHERS[OTHER_ID[desc[1]]][1]
     raise ValueError(desc)
@@ -134,6 +136,8 @@ def enc_val(v) -> str:
         return f"f:{tok(str(v))}:{1 if v == 0 else 0}"
     if isinstance(v, str):
         return "s:" + tok(v)
+    if isinstance(v, tuple) and all(isinstance(x, str) for x in v):
+        return "t:" + "/".join(tok(x) for x in v)
     if isinstance(v, list):
         cls = 0 if type(v) is list else (1 if type(v) is lc[1] else 2 if type(v) is lc[2] else 9)
         return f"l:{cls}:" + "/".join(tok(x) if isinstance(x, str) else "?" + type(x).__name__ for x in v)
@@ -160,6 +164,21 @@ def mk_key(kd):
     if kd[0] == "p":
         return kd[1]
     return NamespacedAttribute(kd[1], kd[2])
+
+
+def combined_attrs(case):
+    """what the container of new_tag holds: the keyword attributes, updated with `attrs` (dict.update order)"""
+    if not case.get("kw"):
+        return case["attrs"]
+    out = [[k, vd] for k, vd in case["kw"]]
+    for k, vd in case["attrs"] or []:
+        for e in out:
+            if key_str(e[0]) == key_str(k):
+                e[1] = vd
+                break
+        else:
+            out.append([k, vd])
+    return out
 
 
 def key_obj(k):
@@ -430,7 +449,7 @@ def oracle_render(d) -> str:
         e = enc_val(v)
         if v is None:
             r = "bare"
-        elif isinstance(v, list):
+        elif isinstance(v, (list, tuple)):
             r = "t:" + tok(" ".join(v))
         elif isinstance(v, str):
             r = "t:" + tok(v)
@@ -507,12 +526,12 @@ def oracle(case) -> str:
                 cls = case["acls"]
                 for k, vd in case["attrs"]:
                     oracle_store(cls, d, key_str(k), _copy_val(mk(vd)))
-            elif case["attrs"] is not None:
+            elif combined_attrs(case) is not None:
                 table = live_table(cfg) if cfg is not None else None
                 if table:
                     # the dictionary passed in is kept; covered string values are split; assignments go through its class
                     acls = case["acls"]
-                    d = {key_str(k): mk(vd) for k, vd in case["attrs"]}
+                    d = {key_str(k): mk(vd) for k, vd in combined_attrs(case)}
                     for k in list(d):
                         if covered(table, case["name"], k):
                             v = d[k]
@@ -521,7 +540,7 @@ def oracle(case) -> str:
                             oracle_store(acls, d, k, nv)
                     cls = acls
                 else:
-                    for k, vd in case["attrs"]:
+                    for k, vd in combined_attrs(case):
                         oracle_store(cls, d, key_str(k), mk(vd))
             for kd, vd in case["sets"]:
                 oracle_store(cls, d, mk_key(kd), mk(vd))
@@ -641,6 +660,7 @@ def execute(case):
             else:
                 soup = make_soup("", cfg)
                 extra_kw = {"nsprefix": case["nsprefix"]} if case.get("nsprefix") else {}
+                extra_kw.update({k: mk(vd) for k, vd in case.get("kw") or []})      # keyword attributes
                 if case["attrs"] is None:
                     tag = soup.new_tag(case["name"], **extra_kw)
                 else:
@@ -681,6 +701,12 @@ def model_line(case) -> str:
         items = "&".join(f"{tok(key_str(k))}={enc_val(mk(vd))}" for k, vd in case["attrs"]) or "-"
         sets = "&".join(f"{enc_key(kd)}={enc_val(mk(vd))}" for kd, vd in case["sets"]) or "-"
         return f"c17 copy {case['acls']} 1 {1 if case['isxml'] else 0} {tok(case['name'])} {items} {sets}"
+    if kind == "tag" and case["cfg"] is not None and case.get("kw"):
+        m, d, l = cfg_model(case["cfg"])
+        kw = "&".join(f"{tok(k)}={enc_val(mk(vd))}" for k, vd in case["kw"])
+        attrs = "~" if case["attrs"] is None else ("&".join(f"{tok(key_str(k))}={enc_val(mk(vd))}" for k, vd in case["attrs"]) or "-")
+        sets = "&".join(f"{enc_key(kd)}={enc_val(mk(vd))}" for kd, vd in case["sets"]) or "-"
+        return f"c17 newtag {m} {d} {l} {tok(case['name'])} {kw} {attrs} {sets}"
     if kind == "tag":
         cfg = case["cfg"]
         if cfg is None:
@@ -718,6 +744,7 @@ VALUE_GRID = (
     + [("i", d) for d in ["0", "1", "-1", "7", "-12", "255", "E30", "-E30", "E4299", "E4300", "-E4300", "-E4299"]]
     + [("f", d) for d in ["0.0", "-0.0", "1.5", "-2.25", "1e300", "1e-07", "inf", "-inf", "nan", "3.0"]]
     + [("l", 0, []), ("l", 0, ["a"]), ("l", 0, ["a", "b"]), ("l", 1, ["x", "y"]), ("l", 2, ["p"]), ("l", 1, []), ("l", 0, [""])]
+    + [("t", ["a", "b"]), ("t", [])]
     + [("o", n) for n, _ in OTHERS]
 )
 LIGHT_GRID = [v for v in VALUE_GRID if not (v[0] == "i" and "E4" in v[1])]
@@ -875,6 +902,9 @@ def gen_tag_case(r):
         dcls = cfg["dcls"]
         acls = "plain" if dcls == "absent" else dcls
         c = {"kind": "tag", "cfg": cfg, "isxml": False, "name": name, "attrs": pre, "acls": acls, "sets": sets}
+        if r.random() < 0.35:
+            kws = r.sample(["id", "k", "class", "rel", "headers", "title"], r.randint(1, 3))
+            c["kw"] = [[k, pick_value(r) if r.random() < 0.5 else ["s", gen_ws_string(r, exotic=False)]] for k in kws]
         if r.random() < 0.3:
             c["nsprefix"] = r.choice(["svg", "x"])       # the prefix is not part of tag.name: the table lookup ignores it
         if pre is not None and r.random() < 0.4:
@@ -1319,7 +1349,7 @@ def oracle_format(case):
             if v is None or (eb and isinstance(v, str) and v == ""):
                 parts.append(str(k))
                 continue
-            text = " ".join(v) if isinstance(v, list) else v if isinstance(v, str) else str(v)
+            text = " ".join(v) if isinstance(v, (list, tuple)) else v if isinstance(v, str) else str(v)
             if '"' in text and "'" in text:
                 q = '"' + text.replace('"', "&quot;") + '"'
             elif '"' in text:
@@ -1553,7 +1583,7 @@ def run(ctx: Ctx):
         "str(float) is the runtime's (carried in the value, not modelled); str(int) is modelled incl. sys.get_int_max_str_digits()",
         "str.lower() is modelled per code point from a generated table; element names with U+03A3 (final-sigma rule) are not generated",
         "html.parser's tokenizer is outside the property: the model starts from the (name, attrs) list handle_starttag received (recorded by a pass-through wrapper)",
-        "tuple attribute values, list elements that are not str, and on_duplicate_attribute strings other than 'replace'/'ignore' are not generated",
+        "list/tuple elements that are not str are not generated (the join in _format_tag would raise TypeError)",
         "dictionary keys are compared by their str value (NamespacedAttribute is a str subclass); which key object is retained is not observed",
     ]
     t, tags, attrs = table_names()
